@@ -1,5 +1,5 @@
 """C05 - every address is the standard encoding of the right script on the right network."""
-from ..core import attempt, V, R
+from ..core import attempt, V, R, HarnessError
 from ..ref import hd, secp, enc
 
 LEVEL = "exploration"
@@ -56,7 +56,7 @@ def judge_addr(addr, kind, pt, testnet, compressed, seam):
     return []
 
 
-def chk_point(sec_hex, k):
+def chk_point(sec_hex, k, lite=False):
     from btc_hd_wallet.base_wallet import BaseWallet
     from btc_hd_wallet.bip32 import PubKeyNode, PrvKeyNode
     from btc_hd_wallet.keys import PublicKey
@@ -68,10 +68,13 @@ def chk_point(sec_hex, k):
         # the same key as the root of a wallet imported from an extended key (parsed nodes keep the 33-byte key field)
         rn = hd.node_from_pub(pt, b"\x11" * 32, 2, 7, b"\x01\x02\x03\x04")
         nodes.append(("pub-parsed", BaseWallet.from_extended_key(hd.xpub(rn, hd.version_for("pub", testnet, 44))).master))
+        if lite:
+            nodes = nodes[1:]
         if k is not None:
             nodes.append(("prv", PrvKeyNode(key=k.to_bytes(32, "big"), chain_code=b"\x11" * 32, testnet=testnet)))
             rp = hd.node_from_priv(k, b"\x11" * 32, 2, 7, b"\x01\x02\x03\x04")
-            nodes.append(("prv-parsed", BaseWallet.from_extended_key(hd.xprv(rp, hd.version_for("prv", testnet, 84))).master))
+            if not lite:
+                nodes.append(("prv-parsed", BaseWallet.from_extended_key(hd.xprv(rp, hd.version_for("prv", testnet, 84))).master))
         for nk, node in nodes:
             w = BaseWallet(master=node, testnet=testnet)
             for kind in KINDS:
@@ -83,6 +86,8 @@ def chk_point(sec_hex, k):
                 viols += judge_addr(a, kind, pt, testnet, True, "wallet")
         for comp in (True, False):
             for kind in ("p2pkh", "p2wpkh"):
+                if kind == "p2wpkh" and not comp:
+                    continue          # a witness program of an UNCOMPRESSED key is non-standard: the property does not say what it is
                 st, a = attempt(lambda: PublicKey.parse(secp.sec(pt, comp)).address(compressed=comp, testnet=testnet, addr_type=kind))
                 n += 1
                 if st != "ok":
@@ -161,7 +166,10 @@ class KeyObjectHistories:
             last = n == len(hist) - 1
             if op[0] == "addr":
                 st, a = attempt(pk.address, op[1], op[2], op[3])
-                vs = judge_addr(a, op[3], pt, op[2], op[1], "PublicKey.address(history)") if st == "ok" else [V(P + ":PublicKey.address:history:raised", str(a))]
+                if op[3] == "p2wpkh" and not op[1]:
+                    vs = []           # executed as part of the history, not judged (see chk_point)
+                else:
+                    vs = judge_addr(a, op[3], pt, op[2], op[1], "PublicKey.address(history)") if st == "ok" else [V(P + ":PublicKey.address:history:raised", str(a))]
             elif op[0] == "sec":
                 st, a = attempt(pk.sec, op[1])
                 vs = [] if st == "ok" and a == secp.sec(pt, op[1]) else [V(P + ":sec:history:wrong-bytes", "sec(%r) after %r" % (op[1], hist[:n]))]
@@ -211,7 +219,7 @@ def execute(case):
             v["case"] = case
         return R(r["label"], viols=r["viols"])
     if k == "point":
-        n, vs = chk_point(case["sec"], int(case["scalar"], 16) if case.get("scalar") else None)
+        n, vs = chk_point(case["sec"], int(case["scalar"], 16) if case.get("scalar") else None, case.get("lite", False))
         return R("violation" if vs else "addresses-ok", viols=vs, n=n)
     if k == "scripts":
         n, vs = chk_scripts(bytes.fromhex(case["h20"]), bytes.fromhex(case["h32"]))
@@ -256,6 +264,27 @@ def run(ctx):
     pts = lifted_points(ctx)
     cases += [{"k": "point", "sec": secp.sec(p).hex()} for p in (pts if ctx.thorough else pts[:10])]
     ctx.product("keys-x-networks-x-kinds", cases, execute, chunk=1)
+    # corner classes of the COMPUTED intermediates (vf/corners.py): for every byte position of the x coordinate, the key hash,
+    # the witness-script hash, the two nested script hashes and the four Base58 checksums a key where that byte is 00 / ff;
+    # for every value 0..255 a key where the first / the last byte of each has that value; pairs sharing first / last byte
+    from .. import corners
+    base = int.from_bytes(enc.sha256(b"C05-corner-base-%d" % ctx.seed), "big") % (N - 10**6) + 1
+
+    def cands():
+        for k, pt in corners.scalar_walk(base, secp):
+            s_ = secp.sec(pt)
+            h = enc.hash160(s_)
+            w = enc.sha256(b"\x51\x21" + s_ + b"\x51\xae")
+            shw, shs = enc.hash160(b"\x00\x14" + h), enc.hash160(b"\x00\x20" + w)
+            yield k, {"x": s_[1:], "h160": h, "wsh": w, "sh_wpkh": shw, "sh_wsh": shs, "ck_pkh": enc.hash256(b"\x00" + h)[:4],
+                      "ck_pkh_t": enc.hash256(b"\x6f" + h)[:4], "ck_sh": enc.hash256(b"\x05" + shw)[:4], "ck_sh_t": enc.hash256(b"\xc4" + shs)[:4]}
+    shape = {"x": 32, "h160": 20, "wsh": 32, "sh_wpkh": 20, "sh_wsh": 20, "ck_pkh": 4, "ck_pkh_t": 4, "ck_sh": 4, "ck_sh_t": 4}
+    kept, st = corners.cover(cands(), shape, 60000, pairs=ctx.thorough)
+    ctx.extra["intermediate_corner_classes"] = st
+    if st["covered"] != st["classes"]:
+        raise HarnessError("corner cover incomplete: %r" % (st,))
+    ctx.product("intermediate-corners", [{"k": "point", "sec": secp.sec(secp.pub(k)).hex(), "scalar": "%x" % k, "lite": True} for k, _ in kept],
+                execute, chunk=8)
     hs = [("00" * 20, "00" * 32), ("ff" * 20, "ff" * 32), ("00" * 19 + "01", "80" + "00" * 31)]
     # leading zero BITS of the program (5-bit regrouping): first byte 00, 07 (five zero bits), 08, 0f
     hs += [("%02x" % b + "%038x" % r.getrandbits(152), "%02x" % b + "%062x" % r.getrandbits(248)) for b in (0x00, 0x07, 0x08, 0x0f, 0x10)]
